@@ -13,7 +13,7 @@ from discopy.rigid import Ty, Box, Id, Cup, Cap, Swap, Diagram
 from discopy.tensor import Dim, Tensor
 from symrun.harness import Suite
 
-DIMS = {'x': 2, 'y': 3}
+DIMS = {'x': (2,), 'y': (3,)}        # object name -> tuple of dimensions (a Dim may have 0, 1 or more factors)
 
 
 def prod(t):
@@ -24,7 +24,8 @@ def prod(t):
 
 
 def dims_of(ty):
-    return [DIMS[o.name] for o in ty]
+    """one entry per wire: the total dimension of its image"""
+    return [prod(DIMS[o.name]) for o in ty]
 
 
 def sym_array(box, tag):
@@ -61,8 +62,8 @@ def layered(d, arrays):
     M = eye(prod(width))
     scan = list(d.dom)
     for box, off in zip(d.boxes, d.offsets):
-        left = prod([DIMS[o.name] for o in scan[:off]])
-        right = prod([DIMS[o.name] for o in scan[off + len(box.dom):]])
+        left = prod(dims_of(scan[:off]))
+        right = prod(dims_of(scan[off + len(box.dom):]))
         U = box_matrix(box, arrays)
         M = sympy.kronecker_product(eye(left), U, eye(right)) * M
         scan = scan[:off] + list(box.cod) + scan[off + len(box.dom):]
@@ -126,7 +127,7 @@ def run(tier):
     boxes = gens + [f.dagger(), g.dagger(), Swap(x, y), Swap(y, x), Cup(x, x.r), Cap(x.r, x), Cup(y.l, y)]
     F = tensor.Functor({x: 2, y: 3}, arrays)
     F_dim = tensor.Functor({x: Dim(2), y: Dim(3)}, arrays)
-    F_call = tensor.Functor(lambda t: DIMS[t[0].name], lambda b: arrays[b])
+    F_call = tensor.Functor(lambda t: DIMS[t[0].name][0], lambda b: arrays[b])
     max_boxes = 2 if tier == 'quick' else 3
     doms = [Ty(), x, x @ y, y @ x.r]
     fq = ['tensor.Functor.__call__']
@@ -152,6 +153,26 @@ def run(tier):
                                    what='evaluation is invariant under normalisation')
                 except NotImplementedError:
                     pass
+    # objects sent to Dims with 0 or 2 factors: the swap special case must move blocks of axes of different lengths
+    global DIMS
+    saved = DIMS
+    with suite.guard('multi-factor dimensions', fq):
+        z = Ty('z')
+        DIMS = {'x': (2,), 'y': (2, 2), 'z': ()}
+        f2, g2, w2 = Box('f', x, y), Box('g', y @ x, x), Box('w', Ty(), z)
+        arrays2 = {b: sym_array(b, b.name + 'm') for b in (f2, g2, w2)}
+        syms2 = tuple(sorted({v for a in arrays2.values() for zz in a for v in zz.free_symbols}, key=str))
+        F2 = tensor.Functor({x: Dim(2), y: Dim(2, 2), z: Dim(1)}, arrays2)
+        cases = [Diagram.swap(x, y), Diagram.swap(y, x), Diagram.swap(y, y), Diagram.swap(z, x), Diagram.swap(x, z),
+                 Diagram.swap(x @ y, y), f2 @ Id(x) >> Diagram.swap(y, x), Id(x) @ f2 >> Swap(x, y) >> g2,
+                 Id(x) @ w2 @ Id(x) >> f2 @ Diagram.swap(z, x), f2 @ f2 >> Swap(y, y) >> Id(y) @ Cup(y, y.r) @ Id(y.r)
+                 if False else f2 @ f2 >> Swap(y, y)]
+        for d in cases:
+            suite.identity('eval.multifactor[%s]' % str(d)[:70], entries(mat(F2(d))), entries(layered(d, arrays2)),
+                           extra=syms2, functions=fq,
+                           what='swaps of wires whose images are Dims of different lengths (incl. Dim(1)) are '
+                                'interpreted by their defining tensor')
+    DIMS = saved
     # sums, spiders, bubbles, Diagram.eval
     with suite.guard('sum', fq):
         d1, d2 = f >> e, f >> f.dagger() >> f >> e
